@@ -338,7 +338,7 @@ theorem setPars_ok {c : Content} (hok : OkV c) (hia : noIAB c.pars = true) {free
   have hk : omKeys (setPars c free ps).pars = omKeys c.pars := by rw [setPars_pars]; exact h1
   refine ⟨?_, hk, by rw [setPars_pars]; exact h2⟩
   exact { surs := hok.surs, data := hok.data,
-          num := hok.num, nd := by rw [hk]; exact hok.nd, stNd := hok.stNd, eqs := hok.eqs,
+          num := hok.num, nd := by rw [hk]; exact hok.nd, stNd := hok.stNd, hasEq := hok.hasEq,
           onVars := hok.onVars, nonempty := hok.nonempty }
 
 theorem setPars_static {c : Content} (hok : OkV c) (hia : noIAB c.pars = true) {free : List Name} {ps : List Rat}
@@ -409,8 +409,9 @@ def progOf (c : Content) (L : Lang) (order : List Name) (free : List Name) (cons
     extra := free
     assigns := (consts.map fun kv => (kv.1, Rhs.const kv.2))
       ++ (((defsOf c order).map fun kf => (kf.1, Rhs.app kf.2))
-      ++ ((diffEqs c.rxns).map fun vs => (dName vs.1, Rhs.lin vs.2)))
-    ret := ((omKeys c.vars).filter fun v => (omKeys (diffEqs c.rxns)).contains v).map dName
+      ++ (((diffEqs c.rxns).map fun vs => (dName vs.1, Rhs.lin vs.2))
+      ++ ((zeroRows c).map fun kv => (dName kv.1, Rhs.const kv.2))))
+    ret := (omKeys c.vars).map dName
     retUnit := (diffEqs c.rxns).isEmpty
     retBracket := (templateOf L).retBracket
     retLen := if (templateOf L).sizedRet then some (omKeys c.vars).length else none }
@@ -422,13 +423,15 @@ theorem genModel_free_ok {c : Content} (hok : OkV c) {L : Lang} (hL : L ≠ .jl)
   have hia' : noIA c.pars = true := hia
   unfold genModel progOf
   simp only [hcc, bind, Except.bind, hpop, emitBody_nil hok, pure, Except.pure, hinit, List.map_map,
-    Function.comp_def, target_id hL, List.append_assoc, hia', Bool.not_true, Bool.and_false, Bool.false_eq_true,
+    Function.comp_def, target_id hL, zeroVars_of_ok hok, retNames_of_ok hok, zeroRows,
+    List.append_assoc, hia', Bool.not_true, Bool.and_false, Bool.false_eq_true,
     if_false]
 
 /-- the tail of the program: derived values, reactions, differential equations -/
 def tailOf (c : Content) (order : List Name) : List (Name × Rhs) :=
   ((defsOf c order).map fun kf => (kf.1, Rhs.app kf.2))
-    ++ ((diffEqs c.rxns).map fun vs => (dName vs.1, Rhs.lin vs.2))
+    ++ (((diffEqs c.rxns).map fun vs => (dName vs.1, Rhs.lin vs.2))
+    ++ ((zeroRows c).map fun kv => (dName kv.1, Rhs.const kv.2)))
 
 theorem runSLP_progOf {c : Content} (hok : OkV c) {L : Lang} (hL : L ≠ .jl) (order free : List Name)
     (consts : List (Name × Rat)) (t : Rat) (xs ps : List Rat)
@@ -437,7 +440,7 @@ theorem runSLP_progOf {c : Content} (hok : OkV c) {L : Lang} (hL : L ≠ .jl) (o
     runSLP (progOf c L order free consts) t xs ps
       = (runAssigns (tailOf c order)
           (consts.reverse ++ (((omKeys c.vars).zip xs).reverse ++ ((free.zip ps).reverse ++ [("time", t)])))).bind
-        fun env => ((((omKeys c.vars).filter fun v => (omKeys (diffEqs c.rxns)).contains v).map dName).mapM env.get).bind
+        fun env => (((omKeys c.vars).map dName).mapM env.get).bind
           (checkRet (progOf c L order free consts)) := by
   obtain ⟨hunp, hretb⟩ := tmpl_facts hL
   have hlen : (omKeys c.vars).length = xs.length := by simp [omKeys, hxs]
@@ -453,16 +456,7 @@ theorem runSLP_progOf {c : Content} (hok : OkV c) {L : Lang} (hL : L ≠ .jl) (o
   simp only [Except.bind, tailOf, List.append_assoc]
   rfl
 
-theorem diffEqs_nonempty {c : Content} (hok : OkV c) : (diffEqs c.rxns).isEmpty = false := by
-  cases hv : c.vars with
-  | nil => exact absurd hv hok.nonempty
-  | cons a as =>
-    have := hok.eqs
-    simp only [allVarsHaveEq, List.all_eq_true] at this
-    have hm := this a.1 (by simp [omKeys, hv])
-    cases hd : diffEqs c.rxns with
-    | nil => simp [hd, omKeys] at hm
-    | cons x y => rfl
+theorem diffEqs_nonempty {c : Content} (hok : OkV c) : (diffEqs c.rxns).isEmpty = false := hok.hasEq
 
 theorem baseEnv_sameKeys {P P' V : List (Name × Rat)} (h : P.map (·.1) = P'.map (·.1)) :
     SameKeys (baseEnv P V [] 0) (baseEnv P' V [] 0) := by
